@@ -67,6 +67,7 @@ type vfSimNet struct {
 	loss     int            // percent
 	maxDelay time.Duration  // per message latency 1ms..maxDelay
 	part     map[string]int // address -> partition id
+	cut      map[string]bool // "from>to": messages in that direction are dropped (one-way loss), until heal
 	lastPair map[string]time.Time
 	events   []vfSimEvent
 	sent     map[string]int
@@ -88,7 +89,7 @@ func (n *vfSimNet) reachable(a, b string) bool {
 	if a == b {
 		return true
 	}
-	return n.part[a] == n.part[b]
+	return n.part[a] == n.part[b] && !n.cut[a+">"+b]
 }
 
 // send puts a message on the simulated wire (called by node goroutines and by the simulator).
@@ -410,6 +411,9 @@ func (sc *vfSimScenario) String() string {
 		}
 		if a.Op == "partition" || a.Op == "loss" || a.Op == "delay" {
 			fmt.Fprintf(&sb, " %d", a.Arg)
+		}
+		if a.Op == "cut" {
+			fmt.Fprintf(&sb, " n%d>n%d", a.Arg/10, a.Arg%10)
 		}
 		sb.WriteString(" ; ")
 	}
@@ -823,7 +827,7 @@ func vfSimGen(r *verifrt.Rand, idx int) *vfSimScenario {
 	// faults
 	class := "faultfree"
 	if idx%4 != 0 { // a quarter of the scenarios stays fault-free
-		kinds := []string{"crash", "restart", "restart-newid", "leave", "partition", "loss", "delay"}
+		kinds := []string{"crash", "restart", "restart-newid", "leave", "partition", "loss", "delay", "cut"}
 		nf := 1 + r.Intn(3)
 		ft := joined
 		crashed := map[int]bool{}
@@ -867,8 +871,47 @@ func vfSimGen(r *verifrt.Rand, idx int) *vfSimScenario {
 				}
 				sc.Actions = append(sc.Actions, vfSimAction{At: ft, Op: "partition", Arg: 1 + r.Intn(1<<uint(sc.N)-2)})
 				dur := time.Duration(500+r.Intn(3000)) * time.Millisecond
-				if r.Bool() {
+				switch r.Intn(3) {
+				case 0:
 					dur = 2*(sc.Opts.Timeout+sc.Opts.Confirm) + time.Duration(r.Intn(6000))*time.Millisecond
+				case 1: // inside the suspicion window: members get suspected, the partition heals before they are removed
+					dur = sc.Opts.Timeout + sc.Opts.Interval + time.Duration(r.Intn(int((sc.Opts.Confirm+sc.Opts.Interval)/time.Millisecond)))*time.Millisecond
+				}
+				ft += dur
+				sc.Actions = append(sc.Actions, vfSimAction{At: ft, Op: "heal"})
+			case "cut":
+				// one-way loss between two running nodes (the smallest address - the leader - is the preferred source), for a
+				// duration aimed at the detector's thresholds: below the timeout, inside the suspicion window
+				// (timeout, timeout + confirm), or beyond the removal time
+				var live []int
+				for i := 1; i <= sc.N; i++ {
+					if !crashed[i] {
+						live = append(live, i)
+					}
+				}
+				if len(live) < 2 {
+					continue
+				}
+				from := live[0]
+				if r.Chance(40) {
+					from = live[r.Intn(len(live))]
+				}
+				to := live[r.Intn(len(live))]
+				for to == from {
+					to = live[r.Intn(len(live))]
+				}
+				sc.Actions = append(sc.Actions, vfSimAction{At: ft, Op: "cut", Arg: from*10 + to})
+				if r.Chance(40) { // both directions between the two, the rest of the cluster keeps relaying
+					sc.Actions = append(sc.Actions, vfSimAction{At: ft, Op: "cut", Arg: to*10 + from})
+				}
+				var dur time.Duration
+				switch r.Intn(4) {
+				case 0:
+					dur = sc.Opts.Timeout/2 + time.Duration(r.Intn(int(sc.Opts.Timeout/2/time.Millisecond)))*time.Millisecond
+				case 1, 2:
+					dur = sc.Opts.Timeout + sc.Opts.Interval + time.Duration(r.Intn(int((sc.Opts.Confirm+sc.Opts.Interval)/time.Millisecond)))*time.Millisecond
+				default:
+					dur = 2*(sc.Opts.Timeout+sc.Opts.Confirm) + time.Duration(r.Intn(4000))*time.Millisecond
 				}
 				ft += dur
 				sc.Actions = append(sc.Actions, vfSimAction{At: ft, Op: "heal"})
@@ -915,7 +958,7 @@ type vfSimResult struct {
 func vfSimRun(t *testing.T, sc *vfSimScenario, seed uint64) (res vfSimResult) {
 	rand.Seed(int64(seed)) //nolint:staticcheck // node_actor.go and gossip_selector.go use the global source: pin it for replay
 	synctest.Test(t, func(t *testing.T) {
-		n := &vfSimNet{rng: verifrt.NewRand(seed), t0: time.Now(), nodes: map[string]*vfSimNode{}, part: map[string]int{}, lastPair: map[string]time.Time{}, sent: map[string]int{}, maxDelay: 5 * time.Millisecond, budget: verifrt.EnvInt("VERIF_SIM_BUDGET", 300000)}
+		n := &vfSimNet{rng: verifrt.NewRand(seed), t0: time.Now(), nodes: map[string]*vfSimNode{}, part: map[string]int{}, cut: map[string]bool{}, lastPair: map[string]time.Time{}, sent: map[string]int{}, maxDelay: 5 * time.Millisecond, budget: verifrt.EnvInt("VERIF_SIM_BUDGET", 300000)}
 		ids := map[int]string{}
 		for i := 1; i <= sc.N; i++ {
 			ids[i] = fmt.Sprintf("node-%d", i)
@@ -950,9 +993,15 @@ func vfSimRun(t *testing.T, sc *vfSimScenario, seed uint64) (res vfSimResult) {
 					n.part[vfSimAddr(i)] = (a.Arg >> uint(i-1)) & 1
 				}
 				n.logf("", "PARTITION mask=%b", a.Arg)
+			case "cut":
+				n.cut[vfSimAddr(a.Arg/10)+">"+vfSimAddr(a.Arg%10)] = true
+				n.logf("", "CUT n%d>n%d", a.Arg/10, a.Arg%10)
 			case "heal":
 				for i := 1; i <= sc.N; i++ {
 					n.part[vfSimAddr(i)] = 0
+				}
+				for k := range n.cut {
+					delete(n.cut, k)
 				}
 				n.logf("", "HEAL")
 			case "loss":
@@ -966,6 +1015,9 @@ func vfSimRun(t *testing.T, sc *vfSimScenario, seed uint64) (res vfSimResult) {
 		n.run(sc.FaultsEnd)
 		// no faults from here on
 		n.loss, n.maxDelay = 0, 5*time.Millisecond
+		for k := range n.cut {
+			delete(n.cut, k)
+		}
 		for a := range n.part {
 			n.part[a] = 0
 		}
